@@ -46,6 +46,7 @@ func c03Features() gen.Features {
 	f.FreeVars = true
 	f.LogicRhsMayFail = true // VM-vs-VM: both sides evaluate both operands; folding must not change that
 	f.EqIntFloat = true
+	f.SwapTwin = true
 	f.StrOrder = true
 	f.IllTyped = 6
 	return f
@@ -213,6 +214,8 @@ func c03Directed() []struct {
 } {
 	I := func(n int64) *gen.Expr { return &gen.Expr{K: "int", I: n} }
 	B := func(b bool) *gen.Expr { return &gen.Expr{K: "bool", B: b} }
+	F := func(f float64) *gen.Expr { return &gen.Expr{K: "float", F: f} }
+	S := func(s string) *gen.Expr { return &gen.Expr{K: "str", S: s} }
 	V := func(n string) *gen.Expr { return &gen.Expr{K: "var", S: n} }
 	bin := func(op string, a, b *gen.Expr) *gen.Expr { return &gen.Expr{K: "bin", Op: op, A: []*gen.Expr{a, b}} }
 	ret := func(e *gen.Expr) *gen.Stmt { return &gen.Stmt{K: "ret", E: e} }
@@ -242,6 +245,21 @@ func c03Directed() []struct {
 		mk("if-both-branches-return-then-code", &gen.Stmt{K: "if", E: V("fb"), Body: []*gen.Stmt{ret(I(5))}, Else: []*gen.Stmt{ret(I(6))}}, ret(I(9))),
 		mk("reassign-const-then-loop-mutation", asg("fi", I(10)), &gen.Stmt{K: "while", Name: "w", E: bin(">", V("fi"), I(7)), Body: []*gen.Stmt{asg("w", bin("+", V("w"), I(1))), asg("fi", bin("-", V("fi"), I(1)))}}, asg("fj", bin("+", V("fi"), I(1))), ret(V("fj"))),
 		mk("const-prop-across-branch-reassign", asg("fi", I(100)), iff(V("fb"), asg("fi", I(4))), asg("fj", bin("+", V("fi"), I(1))), ret(V("fj"))),
+		mk("fold-mixed-eq-literals", ret(bin("==", I(5), F(5)))),
+		mk("fold-mixed-ne-literals", ret(bin("!=", F(2), I(2)))),
+		mk("fold-mixed-eq-unequal", ret(bin("==", F(3), I(4)))),
+		mk("fold-mixed-order", ret(bin("<", I(5), F(5.5)))),
+		mk("fold-mixed-le", ret(bin("<=", F(5), I(5)))),
+		mk("fold-mixed-add", ret(bin("+", I(1), F(2.5)))),
+		mk("fold-mixed-div", ret(bin("/", I(7), F(2)))),
+		mk("fold-mixed-eq-in-condition", &gen.Stmt{K: "if", E: bin("==", I(6), F(6)), Body: []*gen.Stmt{ret(S("same"))}, Else: []*gen.Stmt{ret(S("different"))}}),
+		mk("fold-mixed-eq-through-constant", decl("n", bin("/", I(10), I(2))), &gen.Stmt{K: "if", E: bin("==", V("n"), F(5)), Body: []*gen.Stmt{ret(S("same"))}, Else: []*gen.Stmt{ret(S("different"))}}),
+		mk("fold-mixed-ne-through-constants", decl("n", I(4)), decl("h", F(4)), &gen.Stmt{K: "if", E: bin("!=", V("h"), V("n")), Body: []*gen.Stmt{ret(S("differ"))}}, ret(S("same"))),
+		mk("cse-swapped-concat-strings", decl("p", bin("+", V("fs"), S("cd"))), decl("q", bin("+", S("cd"), V("fs"))), ret(&gen.Expr{K: "arr", A: []*gen.Expr{V("p"), V("q")}})),
+		mk("cse-swapped-concat-locals", decl("a", S("ab")), decl("b", V("fs")), decl("p", bin("+", V("a"), V("b"))), decl("q", bin("+", V("b"), V("a"))), ret(&gen.Expr{K: "arr", A: []*gen.Expr{V("p"), V("q")}})),
+		mk("cse-swapped-concat-arrays", decl("p", bin("+", V("fa"), &gen.Expr{K: "arr", A: []*gen.Expr{I(7)}})), decl("q", bin("+", &gen.Expr{K: "arr", A: []*gen.Expr{I(7)}}, V("fa"))), ret(&gen.Expr{K: "arr", A: []*gen.Expr{V("p"), V("q")}})),
+		mk("cse-swapped-noncommutative", decl("p", bin("-", V("fi"), V("fj"))), decl("q", bin("-", V("fj"), V("fi"))), decl("r", bin("<", V("fi"), V("fj"))), decl("s", bin("<", V("fj"), V("fi"))), ret(&gen.Expr{K: "arr", A: []*gen.Expr{V("p"), V("q"), V("r"), V("s")}})),
+		mk("cse-swapped-reassign", decl("p", S("")), decl("q", S("")), asg("p", bin("+", V("fs"), S("-"))), asg("q", bin("+", S("-"), V("fs"))), ret(bin("+", V("p"), V("q")))),
 		mk("cse-after-reassignment", decl("a", V("fi")), decl("p", bin("*", V("a"), V("fj"))), asg("a", I(3)), decl("q", bin("*", V("a"), V("fj"))), ret(bin("-", V("p"), V("q")))),
 		mk("licm-zero-trip-loop", decl("s", I(0)), &gen.Stmt{K: "for", Name: "it", E: V("fa"), Body: []*gen.Stmt{asg("s", bin("/", I(10), V("fi")))}}, ret(V("s"))),
 		mk("licm-while-false", decl("s", I(0)), &gen.Stmt{K: "while", Name: "w", E: bin("<", V("w"), V("fi")), Body: []*gen.Stmt{asg("w", bin("+", V("w"), I(1))), asg("s", bin("%", I(7), V("fj")))}}, ret(V("s"))),
